@@ -58,6 +58,10 @@ def gen_cases(ctx, n_grammars, n_inputs):
     return cases
 
 
+PREC_UNREPORTED = ("a shift/reduce cell settled by precedence or %nonassoc is not reported as a conflict: conflicts() is None "
+                   "although the parser rejects sentences of the grammar")
+
+
 def check_results(ctx, results, part_b=True):
     """shared by C01/C02/C04: validators + run correspondence + oracles.  Returns
     per-result dict of facts for callers."""
@@ -109,6 +113,15 @@ def check_results(ctx, results, part_b=True):
                     bad_inputs.append((toks, io, "accepted a non-sentence (Earley)"))
             if part_b and conflict_free and sent and not acc_impl:
                 bad_inputs.append((toks, io, "conflict-free table rejects a sentence (Earley)"))
+            if (part_b and ctx.prop == "C01" and r.conflicts is None and not conflict_free and sent and not acc_impl
+                    and io.startswith("rej ")):
+                # the property's second clause, read literally ("if construction reports no conflicts …"): a cell
+                # settled by precedence / %nonassoc is not reported, yet it removes sentences from the language
+                # (theorem C01_construction_complete_reports_only_refuted).  Known finding, not an alarm.
+                ctx.count("sentence_rejected_behind_unreported_precedence_cell")
+                ctx.c01_known_first = getattr(ctx, "c01_known_first", None) or (r.src, [g.tnames.get(t, "?") for t in toks])
+                ctx.violation({"what": "conflicts() is None, a sentence is rejected", "grammar": r.src, "input_tidxs": toks},
+                              known_key=PREC_UNREPORTED)
             # --- run-time correspondence model vs impl ---
             io_cmp = io.split(" nerr=")[0]
             if io_cmp != mo and mo != "fuel":
